@@ -14,8 +14,8 @@ checks = {
  'C06': ('BX', BXT, 'observation vector of every reloaded object (generic/own loader, every load option, re-saved reload) equals that of the built object; concatenated images consume exactly their bytes', '5'),
  'C07': ('BX', BXT + '; every sub-cell isolated in its own process; heap-fill differential (0xA5/0x5A); small-MEMALLOC flavour for buffer growth', 'no ASan report, no fatal signal, no timeout, no dependence on heap fill bytes over all operations of all oracles, both MEMALLOC flavours', '5'),
  'C08': ('BX', BXT, 'save twice, answers before/after, rebuild image equality, image independence from heap fill byte, re-save of loaded objects', '5'),
- 'C09': ('SX+BX', 'stateless model checking of the real block constructor under a controlled scheduler (pthread interposition, iterative preemption bounding) + exhaustive cut/thread-count enumeration', 'every schedule up to the preemption bound for 1-3 blocks x 1-3 workers: image identical to the single-thread image, all blocks complete; every cut size x thread count on the small scopes', '4.3'),
- 'C10': ('SX', 'stateless model checking of the real WorkerPool under a controlled scheduler (pthread interposition, iterative preemption bounding, deadlock = no enabled thread)', 'drivers D1-D5 x workers<=3 x tasks<=3: no deadlock, every task exactly once, no re-entrancy, wait_workers returns', '4.3'),
+ 'C09': ('SX+BX', 'stateless model checking of the real block constructor under a controlled scheduler (pthread interposition, iterative preemption bounding; for one worker and two blocks all interleavings, closed by happens-before state matching) + exhaustive cut/thread-count enumeration with a worker-dependent heap fill', 'every schedule up to the preemption bound for 1-3 blocks x 1-3 workers, every interleaving for producer + one worker: image identical to the single-thread image, all blocks complete; every cut size x thread count on the small scopes', '4.3'),
+ 'C10': ('SX', 'stateless model checking of the real WorkerPool under a controlled scheduler (pthread interposition, iterative preemption bounding, deadlock = no enabled thread) + stateful search without preemption bound, closed by happens-before state matching, for the one-worker configurations (validated against the full stateless enumeration)', 'drivers D1-D5 x workers<=3 x tasks<=3 up to the preemption bound, and ALL interleavings for one worker x 0-3 tasks: no deadlock, every task exactly once, no re-entrancy, wait_workers returns', '4.3'),
  'C11': ('SX', 'the same schedule exploration under ThreadSanitizer: vector-clock race detection on every explored schedule (hand-off invisible to TSan)', 'zero TSan reports on every explored schedule of the pool drivers and the block constructor', '4.3'),
  'C12': ('BX', BXT, 'observation vectors equal across all parameter vectors of a kind (ID-free for hash kinds), across order-preserving kinds, bucket size <2 behaves as 2 with a warning', '5'),
  'C13': ('BX', BXT, 'table scan and every iterator drained: count, order, strlen, termination, no duplicate IDs', '5'),
@@ -35,7 +35,7 @@ m = {
            'source_commits': hooks_commits, 'add_only': True},
  'engines': [
   {'name': 'BX', 'path': 'src/bx.cpp', 'serves_properties': ['C01','C02','C03','C04','C05','C06','C07','C08','C09','C12','C13','C15','C16','C17','C18','C20'], 'kind_free_text': 'bounded-exhaustive dictionary explorer against a reference model'},
-  {'name': 'SX', 'path': 'src/sx.cpp + src/sx/sched.c', 'serves_properties': ['C09','C10','C11'], 'kind_free_text': 'controlled scheduler over interposed pthreads, preemption-bounded stateless search'},
+  {'name': 'SX', 'path': 'src/sx.cpp + src/sx/sched.c', 'serves_properties': ['C09','C10','C11'], 'kind_free_text': 'controlled scheduler over interposed pthreads; preemption-bounded stateless search and unbounded search with happens-before state matching'},
   {'name': 'HX', 'path': 'src/hx.cpp', 'serves_properties': ['C14'], 'kind_free_text': 'explicit-state search over call histories with heap-image states'},
   {'name': 'KX', 'path': 'src/kx.cpp', 'serves_properties': ['C17','C18','C19','C20'], 'kind_free_text': 'component explorers'},
  ],
